@@ -23,14 +23,19 @@ type codecCase struct {
 	Dict  string  `json:"dict"`
 	M     abs.Msg `json:"m"`
 	Bytes []int   `json:"bytes"` // reference encoding from TLC (wire cases), else empty
+	Style string  `json:"style"` // how the message is assembled (abs.ToGoStyle); empty: chosen from id and seed
 }
 
+var codecSeed int64
+var buildStyles = []string{"newavp", "novbit", "literal"}
+
 type codecLine struct {
-	Ev   string  `json:"ev"` // "msg" (built through the API) | "wire" (reference bytes read)
-	ID   int     `json:"id"`
-	Src  string  `json:"src"`
-	Dict string  `json:"dict"`
-	M    abs.Msg `json:"m"`
+	Style string  `json:"style"`
+	Ev    string  `json:"ev"` // "msg" (built through the API) | "wire" (reference bytes read)
+	ID    int     `json:"id"`
+	Src   string  `json:"src"`
+	Dict  string  `json:"dict"`
+	M     abs.Msg `json:"m"`
 	// build + serialise
 	Built bool   `json:"built"`
 	Berr  string `json:"berr"`
@@ -86,6 +91,10 @@ var poisonMsg *diam.Message
 func runCodecCase(c *codecCase, dp *dict.Parser) codecLine {
 	l := codecLine{Ev: "msg", ID: c.ID, Src: c.Src, Dict: c.Dict, M: c.M, Bytes: []int{}, WBytes: []int{}, DHdr: emptyHdr(), DAVPs: []abs.AVP{}, Bytes2: []int{}}
 	var wire []byte
+	if c.Style == "" {
+		c.Style = buildStyles[int((int64(c.ID)+codecSeed)%3)]
+	}
+	l.Style = c.Style
 	if len(c.Bytes) > 0 {
 		l.Ev = "wire"
 		wire = abs.Bytes(c.Bytes)
@@ -93,7 +102,7 @@ func runCodecCase(c *codecCase, dp *dict.Parser) codecLine {
 		l.Built = true
 	} else {
 		p := safely(func() {
-			gm, err := abs.NewMessage(&c.M, dp)
+			gm, err := abs.NewMessageStyle(&c.M, dp, c.Style)
 			if err != nil {
 				l.Berr = err.Error()
 				return
@@ -177,6 +186,7 @@ func Codec(a Args) error {
 		return err
 	}
 	defer out.Close()
+	codecSeed = a.Seed
 	vp, err := abs.NewVParser(a.Repo)
 	if err != nil {
 		return err
@@ -283,6 +293,7 @@ type lenbookAfter struct {
 	HLen  int   `json:"hlen"`
 	SLen  int   `json:"slen"`
 	Order []int `json:"order"`
+	WSame bool  `json:"wsame"` // WriteTo (pooled, previously used buffer) produced the same bytes as Serialize
 }
 type lenbookLine struct {
 	Ev    string         `json:"ev"`
@@ -320,6 +331,21 @@ func runLenbook(id int, c *lenbookCase, dp *dict.Parser) lenbookLine {
 				m.AddAVP(diam.NewAVP(9010, 0x40, 0, datatype.OctetString(pay)))
 			case "InsertAVP":
 				m.InsertAVP(diam.NewAVP(9010, 0x40, 0, datatype.OctetString(pay)))
+			case "AddLit":
+				m.AddAVP(&diam.AVP{Code: 9010, Flags: 0x40, Data: datatype.OctetString(pay)})
+			case "InsLit":
+				m.InsertAVP(&diam.AVP{Code: 9010, Flags: 0x40, Data: datatype.OctetString(pay)})
+			case "NewVend": // vendor AVP, V bit left to the constructor
+				if _, err := m.NewAVP(uint32(9110), 0x40, 99999, datatype.OctetString(pay)); err != nil {
+					l.Err = err.Error()
+					return
+				}
+			case "AddVend":
+				m.AddAVP(diam.NewAVP(9110, 0x40, 99999, datatype.OctetString(pay)))
+			case "AddGroupLate":
+				g := diam.NewAVP(9018, 0x40, 0, &diam.GroupedAVP{})
+				g.Data.(*diam.GroupedAVP).AddAVP(diam.NewAVP(9010, 0x40, 0, datatype.OctetString(pay)))
+				m.AddAVP(g)
 			case "Marshal":
 				if err := m.Marshal(&lbStruct{A: datatype.OctetString(pay), B: datatype.UTF8String([]byte{byte(k + 1), byte(k + 1)})}); err != nil {
 					l.Err = err.Error()
@@ -332,8 +358,16 @@ func runLenbook(id int, c *lenbookCase, dp *dict.Parser) lenbookLine {
 				return
 			}
 			a := lenbookAfter{HLen: int(m.Header.MessageLength), SLen: len(b), Order: []int{}}
+			poisonPools(dp)
+			var wb bytes.Buffer
+			if _, err := m.WriteTo(&wb); err == nil && bytes.Equal(wb.Bytes(), b) {
+				a.WSame = true
+			}
 			for _, av := range m.AVP {
 				s := av.Data.Serialize()
+				if g, ok := av.Data.(*diam.GroupedAVP); ok && len(g.AVP) == 1 {
+					s = g.AVP[0].Data.Serialize()
+				}
 				switch {
 				case av.Code == 268:
 					a.Order = append(a.Order, 0)
